@@ -19,47 +19,58 @@ from core import Ctx, Violation, err_name, ints
 PROP = "C12"
 MANIFEST = {
     "text": "Lean 4 theorems for all file lists / slice counts / slice filters / contexts / member sizes: the volume ranges "
-            "built by H5SliceData.parse_filenames_data are contiguous from 0, ordered, and cover 0..len-1 exactly once "
-            "(empty-after-filter volumes get empty ranges, unreadable files none); data[start_k + r] is the r-th smallest "
-            "admissible slice of the k-th readable file and len(range(*slice.indices(n))) equals the number of admitted "
-            "slices; the context window has length 2c+1, centre = the slice, entry j = slice s-c+j or a zero block when "
-            "outside the file; ConcatDataset maps idx to (member, local index) with idx = sum of earlier sizes + local, "
-            "negative indices as len+idx, out-of-range rejected; synthetic items are functions of the per-sample seed only "
-            "(independent of the global RNG state and of any access history) whenever the seed-plumbing table read off the "
-            "source is all-true. Tied to the code by translated arithmetic + structural tables (bridge lemmas) and exact "
-            "differential correspondence on labelled h5 files and recorded numpy RNG calls.",
+            "built by parse_filenames_data (H5SliceData and its subclasses FastMRIDataset / CalgaryCampinasDataset, and "
+            "CMRxReconDataset with num_slices = a*b | a | b) are contiguous from 0, ordered, and cover 0..len-1 exactly once for "
+            "distinct file names (empty-after-filter volumes get empty ranges, unreadable/missing files none); data[start_k + r] "
+            "is the r-th smallest admissible slice of the k-th readable file and len(range(*slice.indices(n))) equals the "
+            "number of admitted slices; CMRx 2-D index s <-> (s // b, s % b) is a bijection; the context window has length "
+            "2c+1, centre = the slice, entry j = slice s-c+j or a zero block; file selection (filenames_filter > "
+            "filenames_lists > directory listing, then regex) is invariant under permutations of the directory listing iff the "
+            "listing is sorted; ConcatDataset maps idx to (member, local index) uniquely, negatives as len+idx, out-of-range "
+            "rejected; synthetic items are functions of the per-sample seed only. Tied to the code by translated arithmetic + "
+            "structural tables (bridge lemmas) and exact differential correspondence on labelled h5/.mat fixtures built from "
+            "constructor arguments, and recorded numpy RNG calls.",
     "note": "Trusted: Lean kernel (+propext, Classical.choice, Quot.sound), the AST translator, h5py slicing, Python "
-            "slice.indices / range / bisect.bisect_right (hand-modelled from their documented behaviour, validated by "
-            "correspondence), numpy RandomState and sklearn make_blobs as 'a stream seeded with s yields the same draws'. "
-            "The numerics between draws and k-space (blobs, sensitivity maps, FFT) are a parameter `render` of the model; "
-            "their bit-reproducibility is checked on the implementation only. File names are assumed distinct. "
-            "Repaired finding (regression witnesses shepp_pinned_violates / shepp_pinned_partial): the pinned "
-            "SheppLoganDataset drew the noise of all-zero outer slices from the unseeded global numpy stream (num_coils = 1: "
-            "ds[i] twice differed).",
+            "slice.indices / range / dict / bisect.bisect_right / re.match / pathlib.glob (hand-modelled or taken as inputs, validated "
+            "by correspondence), numpy RandomState and sklearn make_blobs as 'a stream seeded with s yields the same draws'. "
+            "FastMRI fixtures carry a minimal valid ISMRMRD XML header written by the harness (the real header parser runs). "
+            "The numerics between draws and k-space are a parameter `render`; their bit-reproducibility is checked on the "
+            "implementation only. Findings on the current tree (modelled faithfully, *_current_violates witnesses): unsorted "
+            "directory listing (index map depends on OS listing order); a file name occurring twice breaks the partition "
+            "(dict keyed by name); CMRxReconConfig.regex_filter is not accepted by CMRxReconDataset (TypeError in "
+            "build_dataset_from_input). Repaired: SheppLogan noise from the global stream (shepp_pinned_violates).",
     "technique": "Lean 4 proof (list induction, omega, permutation counting) + AST translation bridge + differential "
-                 "correspondence + property oracle on the real datasets",
+                 "correspondence + property oracle on the real datasets (incl. subprocesses with varied PYTHONHASHSEED)",
 }
 TRUSTED = [
     "Lean 4.33 kernel; axioms ⊆ {propext, Classical.choice, Quot.sound}",
     "harness/translate recipes c12 (window bounds/guards/fill lengths, ConcatDataset arithmetic, volume range arithmetic, "
-    "structural tables of parse_filenames_data / get_slice_data / ConcatDataset, seed-plumbing tables)",
-    "Python slice.indices, range membership/len, list indexing, bisect.bisect_right: hand-modelled, validated by correspondence",
+    "structural tables of parse_filenames_data / get_slice_data / file selection / subclass forwarding / CMRxRecon / ConcatDataset, "
+    "seed-plumbing tables)",
+    "Python slice.indices, range membership/len, list indexing, dict assignment order, bisect.bisect_right: hand-modelled, "
+    "validated by correspondence; re.match results and the OS directory listing order are inputs of the model (computed by the "
+    "harness with the same library calls)",
     "h5py: file[key][a:b] returns slices a..b-1; numpy concatenate/zeros/swapaxes index semantics",
+    "fixtures: FastMRI files with a minimal ISMRMRD header + attrs['max']; Calgary-Campinas layout (slices, ny, nz, 2*coils) "
+    "real-valued; CMRxRecon .mat = h5 with compound (real, imag) of shape (slices, frames, coils, ny, nx)",
     "numpy RandomState / sklearn make_blobs: a stream seeded with s produces the same draws; make_blobs(random_state=int) "
     "uses a private stream (checked on every run by replaying the recorded global-stream calls)",
 ]
 ASSUMPTIONS = [
-    "file names passed to a dataset are distinct (volume_indices is keyed by file name)",
+    "main theorems assume distinct file names among the readable files (the violation for repeated names is a reported finding)",
     "h5 files are not modified between construction and access",
     "`render` (blob image, sensitivity maps, FFT) is a deterministic function of the drawn values — checked bit-for-bit on "
     "the implementation by the oracle, not proved",
 ]
-RULE = ("h5 pool: files with 1..9 slices, content value = 1000*file + slice; datasets = ordered selections of 0..6 pool files "
-        "(incl. unreadable ones), filters = None / slice objects with None/negative/out-of-range bounds and steps "
-        "±1..±5 / malformed (step 0, non-slice), contexts 0..3; every index incl. negative and out-of-range is accessed. "
-        "non-trivial = at least 2 readable files and (a filter or context >= 1) for h5 cases, >= 2 members for concat cases, "
-        "a multi-coil or zero-slice access for RNG cases, any oracle case with >= 2 volumes or a perturbed global RNG; "
-        "distinct = distinct protocol line / oracle case key")
+RULE = ("h5 pools: files with 1..9 slices, content value = 1000*file + slice; datasets = ordered selections of 0..6 pool files "
+        "(incl. unreadable / missing / repeated ones) given as filenames_filter, .lst lists, or a directory listing (hard links "
+        "created in shuffled order) with optional regex_filter; classes H5SliceData / FastMRIDataset / CalgaryCampinasDataset "
+        "(crop 50:-50 on 1..104-slice files) / CMRxReconDataset (contexts None/slice/time on (a, b) in 1..3 x 1..4); filters = "
+        "None / slice objects with None/negative/out-of-range bounds and steps ±1..±5 / malformed (step 0, non-slice), contexts "
+        "0..3, pass_h5s / sensitivity_maps companions; every index incl. negative and out-of-range is accessed. non-trivial = at "
+        "least 2 readable files and (a filter or context >= 1) for h5 cases, every dataset/cmr construction case, >= 2 members "
+        "for concat cases, a multi-coil or zero-slice access for RNG cases, any oracle case; distinct = distinct protocol line / "
+        "oracle case key")
 PENDING_FINDINGS: list[str] = ["directory-listing-order-unsorted", "duplicate-filenames-ranges-not-partition",
                                "cmrxrecon-config-regex-filter-typeerror"]
 
